@@ -225,7 +225,7 @@ class Gen:
         return fs
     def _obj_node(self, kind, name, fs, raw=True, decl=None):
         lean = ["obj", {"name": name, "kind": kind, "raw": raw},
-                [[f["name"], f["alias"], f["required"], f["fbod"], f["ty"].lean, f["dflt"]] for f in fs]]
+                [[f["name"], f["alias"], f["required"], f["fbod"], f["ty"].lean, f["dflt"]] + ([sorted(f["required_by"])] if f.get("required_by") else []) for f in fs]]
         return Node(kind, lean, name, [f["ty"] for f in fs], fields=fs, decl=decl)
     def g_dataclass(self, d):
         n = self.pool.fresh("C"); fs = self._fields(d, "dataclass")
@@ -380,8 +380,14 @@ class Gen:
         for f in fs:
             md = f"metadata=alias({f['alias']!r})" if f["alias"] != f["name"] else ""
             lines.append(f"    {f['name']}: {f['ty'].py} = field(default=None" + (f", {md})" if md else ")"))
-        deps = "{" + f"{a}: [{b}]" + (f", {names[2]}: [{a}]" if len(names) > 2 and self.rnd.random() < 0.5 else "") + "}"
+        second = len(names) > 2 and self.rnd.random() < 0.5
+        deps = "{" + f"{a}: [{b}]" + (f", {names[2]}: [{a}]" if second else "") + "}"
         lines.append(f"    dependencies = dependent_required({deps})")
+        # `required_by` of a field: the external names of the fields that require it
+        al = {f["name"]: f["alias"] for f in fs}
+        for f in fs:
+            if f["name"] == b: f["required_by"] = [al[a]]
+            if second and f["name"] == a: f["required_by"] = [al[names[2]]]
         self.pool.add(lines)
         node = self._obj_node("dataclass", n, fs, decl=lines)
         node.tags = ("depreq",)
